@@ -98,6 +98,13 @@ def viewFieldsOfTag : String → Option (List String)
   | "bt" => some MsgBridgeTokenClaim.viewFields | "osu" => some MsgOracleSetUpdatedClaim.viewFields
   | _ => none
 
+/-- the path the release BEFORE `b7515bc` hashed for this claim (three formats changed; see `Model/C03.lean`) -/
+def legacyPath : AnyClaim → Str
+  | .bc c => legacyBridgeCallPath c
+  | .bcr c => legacyBridgeCallResultPath c
+  | .bt c => legacyBridgeTokenPath c
+  | c => c.path
+
 end AnyClaim
 
 /-- `types.Attestation` under its store key `nonce ‖ hash` -/
